@@ -4,13 +4,13 @@ import numpy as np
 from harness import lib, core
 
 RULE = ("traces = one per (topology, start node, callback mode) for every topology (all numberings) up to the bound, each through one of the "
-        "three public entry points, recorded by token-returning callbacks (the leave callback also mutates the list it is handed; in a quarter of the traces the callbacks return None for some nodes) and validated "
+        "three public entry points, recorded by token-returning callbacks (the leave callback also mutates the list it is handed; in a quarter of the traces the callbacks return None for some nodes, in another quarter - through the Tree entry points - the node handle they were called with) and validated "
         "event by event by Trace_StructRec; plus random trees of 50-500 nodes, random trees of 7e4-1.5e5 nodes under interleaved numberings (validated by the folded "
         "judge Trace_BigRec, which MC_BigRec checks against StructRec on every small tree) and chains of 2e4 (quick) / 1e5 (thorough) nodes validated by "
         "Trace_ChainRec; non-trivial = subtree of the start node has at least 3 nodes; distinct by (topology, start, mode)")
 
 
-def record(P, start, mode, api, pre=None, ed=None, copy_after=False, nones=False):
+def record(P, start, mode, api, pre=None, ed=None, copy_after=False, nones=False, handles=False):
     from swcgeom.core import Tree
     from swcgeom.core.swc_utils import traverse
     events, counter = [], [0]
@@ -18,16 +18,23 @@ def record(P, start, mode, api, pre=None, ed=None, copy_after=False, nones=False
     def nid(n):
         return int(n) if isinstance(n, (int, np.integer)) else int(n.id)
 
+    def val(v):                  # what a handed-in value denotes when it is received: tokens as they are, node handles by the node they stand for
+        return -1 if v is None else (v if isinstance(v, (int, np.integer)) else 1000 + int(v.id))
+
     def enter(n, pin):
         counter[0] += 1
         ret = None if (nones and nid(n) % 3 == 1) else counter[0]       # a callback may return nothing: that is a value like any other
-        events.append(["E", nid(n), -1 if pin is None else pin, -1 if ret is None else ret])
+        if handles:
+            ret = n              # ... or the node handle it was called with (the Tree entry points hand out handles)
+        events.append(["E", nid(n), val(pin), 1000 + nid(n) if handles else (-1 if ret is None else ret)])
         return ret
 
     def leave(n, cs):
         counter[0] += 1
         ret = None if (nones and nid(n) % 2 == 1) else counter[0]
-        events.append(["L", nid(n), [-1 if v is None else v for v in cs], -1 if ret is None else ret])
+        if handles:
+            ret = n
+        events.append(["L", nid(n), [val(v) for v in cs], 1000 + nid(n) if handles else (-1 if ret is None else ret)])
         cs.append(-5)            # a callback may do what it likes with the list it was handed
         return ret
     kw = {}
@@ -56,7 +63,7 @@ def record(P, start, mode, api, pre=None, ed=None, copy_after=False, nones=False
     else:
         t = Tree(n, id=ids, pid=pids)
         ret = t.traverse(root=start, **kw) if api == 1 else t.node(start).traverse(**kw)
-    events.append(["R", -1 if ret is None else ret])
+    events.append(["R", val(ret)])
     return events
 
 
@@ -64,7 +71,8 @@ def execute(c):
     api = c.get("api", lib.vid(c) % 3)
     events = []
     try:
-        events = record(c["P"], c["start"], c["mode"], api, c.get("pre"), c.get("ed"), lib.vid(c) % 2 == 1, nones=c.get("nones", lib.vid(c) % 4 == 2))
+        events = record(c["P"], c["start"], c["mode"], api, c.get("pre"), c.get("ed"), lib.vid(c) % 2 == 1, nones=c.get("nones", lib.vid(c) % 4 == 2),
+                        handles=(api != 0 and c.get("nones") is None and lib.vid(c) % 4 == 3))
     except RecursionError:
         return {"events": [], "err": "RecursionError"}
     return {"events": events}
